@@ -35,6 +35,21 @@ def cases(rng, tier):
         cs.append({"line": f"cfg {C.hexs(bs)}", "exe": "analyze", "tags": ["random-bytes"]})
     for _ in range(n // 2):
         cs.append({"line": f"cfg {C.hexs(G.gen_program(rng))}", "exe": "analyze", "tags": ["structured"]})
+    # every arithmetic opcode computing a jump target / branch condition from boundary CONSTANTS (0, 1, 31, 32, 33,
+    # 255, 256, 2^255, 2^256-1 ...): constant operands take different paths through the solver translation
+    import itertools
+    consts = [0, 1, 2, 31, 32, 33, 255, 256, (1 << 255), R.M - 1]
+    for op in G.ARITH:
+        k = R.S.of_fork("cancun", op)[0]
+        combos = list(itertools.product(consts, repeat=k)) if k <= 2 else [tuple(rng.choice(consts) for _ in range(k)) for _ in range(30)]
+        if tier == "quick" and len(combos) > 40:
+            combos = [c for c in combos if rng.random() < 40 / len(combos)] + [(32,) * k, (31,) * k, (5, 32)[:k], (32, 5)[:k]]
+        for vals in combos:
+            if op == 0x0a and max(vals) > 300:
+                continue
+            code = b"".join(G.push(v) for v in reversed(vals)) + bytes([op])
+            code = b"\x5b" + code + rng.choice([b"\x56", b"\x60\x01\x57"]) + b"\x5b\x00"
+            cs.append({"line": f"cfg {C.hexs(code)}", "exe": "analyze", "tags": ["const-operand-jump"]})
     return cs
 
 
